@@ -234,7 +234,8 @@ def _flip(ctx, P):
 
     def m_kernel(ev, args, kw, node):
         calls.append(list(args))
-        return Obj("ndarray", "KERNEL-OUT")
+        nd = args[0].attrs.get("ndim") if args and isinstance(args[0], Obj) else None
+        return Obj("ndarray", "KERNEL-OUT", (), {"ndim": nd} if nd is not None else {})
 
     # the bins are given as one representative per order class; whatever spelling the source uses to test monotonicity
     # is *evaluated* on it (sa.concrete), no condition text is matched
